@@ -1,4 +1,5 @@
 import XModel.TableSel
+import XModel.TableSpan
 /-!
 # C08 — row selection follows the documented selector semantics, in table order
 Model: `XModel/Table.lean` (`getRowIndices`, `getRegexpIndices`, `indicesOf`, `maskOf`, `rowsOf`).
@@ -157,5 +158,56 @@ theorem C08_mask_rows_from_indices (t : Tbl) (m : String → Match) (s : Sel) (l
   constructor
   · unfold maskOf; simp only [h]; rw [hp]
   · unfold rowsOf; simp only [h]; rw [hp]
+
+/-! ### name spans `t.rows['a':'b']`, `t.rows['a':'b':'col']` (XModel/TableSpan.lean) -/
+
+/-- a span between two row selectors of the index column (`name`, `name::count`, `name<<k`, `name>>k`, resolved like a
+    single-row look-up): exactly the positions from the start row up to AND INCLUDING the stop row, ascending, each
+    once (for resolved positions that are not negative; the general clamped form is `C08_name_span_general`) -/
+theorem C08_name_span (t : Tbl) (h : Coherent t) (m : String → Match) (sa sb : String) (c : Bound)
+    (hc : c = .none ∨ c = .str t.index) (ia ib : Int)
+    (ha : (getRowIndex t (.name sa)).2 = .ok ia) (hb : (getRowIndex t (.name sb)).2 = .ok ib)
+    (hia : 0 ≤ ia) (hib : 0 ≤ ib) :
+    ∃ l, (indicesOf t m (.slice (.str sa) (.str sb) c)).2 = .ok l ∧ l.Pairwise (· < ·) ∧
+      ∀ j : Int, j ∈ l ↔ ia ≤ j ∧ j ≤ ib ∧ j < (t.nrows : Int) :=
+  nameSpan_by_name t h m sa sb c hc ia ib ha hb hia hib
+
+/-- a span whose bounds are looked up in another column: from the first row whose cell equals the start value to the
+    first row whose cell equals the stop value, inclusive -/
+theorem C08_name_span_by_column (t : Tbl) (h : Coherent t) (m : String → Match) (va vb cn : String) (cc : List Cell)
+    (hne : cn ≠ t.index) (hcc : t.col cn = some cc) (ia ib : Int)
+    (ha : rowWhereCol cc (.str va) = .ok ia) (hb : rowWhereCol cc (.str vb) = .ok ib) :
+    ∃ l, (indicesOf t m (.slice (.str va) (.str vb) (.str cn))).2 = .ok l ∧ l.Pairwise (· < ·) ∧
+      ∀ j : Int, j ∈ l ↔ ia ≤ j ∧ j ≤ ib ∧ j < (t.nrows : Int) :=
+  nameSpan_by_col t h m va vb cn cc hne hcc ia ib ha hb
+
+/-- every span (absent bounds, offsets that leave the table, integer next to string bounds): the selection is the
+    Python slice `slice(ia, ib+1)` of the resolved positions — an ascending block described by `spanBlock_spec` — or the
+    error of the first bound that does not resolve -/
+theorem C08_name_span_general (t : Tbl) (h : Coherent t) (m : String → Match) (a b c : Bound)
+    (hs : (isStrB a || isStrB b) = true) :
+    (indicesOf t m (.slice a b c)).2 =
+      (match spanResolve t a b c with
+       | .error e => .error e
+       | .ok p => .ok (spanBlock t.nrows p)) ∧
+    ∀ p, (spanBlock t.nrows p).Pairwise (· < ·) ∧
+      ∀ j : Int, j ∈ spanBlock t.nrows p ↔
+        (sliceEnd t.nrows 0 p.1 : Int) ≤ j ∧ j < (sliceEnd t.nrows t.nrows (p.2.map (· + 1)) : Int) :=
+  ⟨(indicesOf_span t h m a b c hs).2, fun p => spanBlock_spec t.nrows p⟩
+
+/-- a bound that does not resolve: `rows.indices`, `rows.mask` and `rows[...]` all fail with that look-up's error -/
+theorem C08_name_span_error (t : Tbl) (h : Coherent t) (m : String → Match) (a b c : Bound)
+    (hs : (isStrB a || isStrB b) = true) (e : TErr) (hres : spanResolve t a b c = .error e) :
+    (indicesOf t m (.slice a b c)).2 = .error e ∧ (maskOf t m (.slice a b c)).2 = .error e ∧
+    (rowsOf t m (.slice a b c)).2 = .error e :=
+  let r := nameSpan_error t h m a b c hs e hres
+  ⟨r.2.1, r.2.2.1, r.2.2.2⟩
+
+/-- the selected table's index column is the contiguous sub-list of the source's -/
+theorem C08_name_span_rows (t : Tbl) (h : Coherent t) (hr : Rect t) (m : String → Match) (a b c : Bound)
+    (hs : (isStrB a || isStrB b) = true) (ia ib : Nat)
+    (hres : spanResolve t a b c = .ok (some (ia : Int), some (ib : Int))) :
+    ∃ r, (rowsOf t m (.slice a b c)).2 = .ok r ∧ r.indexCol = (t.indexCol.drop ia).take (ib + 1 - ia) :=
+  nameSpan_rows_indexCol t h hr m a b c hs ia ib hres
 
 end Properties.C08
